@@ -77,6 +77,8 @@ _KEY_POOLS = {
     'uint8': ('uint8', [1, 0, 255, 3]),
     'uint64': ('uint64', [1, 0, 3, 2 ** 40]),
     'float64': ('float64', [1.0, 0.0, -0.0, 1.5, -2.25, float('inf'), float('-inf'), 3.0]),
+    # distinct keys that are relatively or absolutely close: equality of keys is exact equality, never closeness
+    'float64_close': ('float64', [250000.0, 250001.0, 1577836800.0, 1577836860.0, 1e-9, 2e-9, 0.0, 1.0, 1.0000000001]),
     'float32': ('float32', [1.0, 0.0, 1.5, -2.25, 0.5]),
     'complex128': ('complex128', [1 + 0j, 0j, 1 + 2j, -1.5j, 3 + 0j]),
     '<U5': ('<U5', ['1', '0', '', 'a', 'b', 'ab', 'None', 'True', '1.0']),
@@ -92,7 +94,7 @@ _KEY_POOLS = {
     'obj_tuple': ('object', [(1, 2), (1, 3), (2, 2)]),
     'obj_tuple_mixed': ('object', [(1, 2), 'a', (1, 3), 1]),
 }
-_KEY_POOL_WEIGHTED = (['bool', 'int64', 'int64', 'int8', 'uint8', 'float64', 'float64', 'float32', 'complex128', '<U5', '<U5', 'S5',
+_KEY_POOL_WEIGHTED = (['float64_close', 'float64_close', 'bool', 'int64', 'int64', 'int8', 'uint8', 'float64', 'float64', 'float32', 'complex128', '<U5', '<U5', 'S5',
                        'M8[D]', 'M8[s]', 'm8[D]', 'int64big', 'uint64', 'obj_int', 'obj_str', 'obj_num', 'obj_mixed', 'obj_mixed',
                        'obj_none', 'obj_tuple', 'obj_tuple_mixed'])
 _OTHER_DTYPES = ['bool', 'int64', 'float64', '<U5', 'object', 'M8[D]', 'int8', 'float32', 'complex128']
